@@ -1046,6 +1046,19 @@ func c18BothFamilies(c *Ctx) {
 		c.Fail(key, rule, "the lookup or the dial is restricted to one IP family: the addresses of the other family are never resolved or dialled", c.ats(bad)...)
 		return
 	}
+	// liveness: the region looked at is the one that builds the cache resolver
+	live := false
+	for _, fn := range region(root) {
+		eachInstr(fn, func(i ssa.Instruction) {
+			if al, isAl := i.(*ssa.Alloc); isAl && isNamedType(al.Type().(*types.Pointer).Elem(), "dnscache", "Resolver") {
+				live = true
+			}
+		})
+	}
+	if !live {
+		c.Undecided(key, rule, "no dnscache.Resolver is created inside DNSCaching: the lookup path is not the one this rule knows", seen...)
+		return
+	}
 	c.Check(n > 0, key, rule, "lookup backend untouched, no family-pinned network", "DNSCaching has no body", seen...)
 }
 
